@@ -99,7 +99,7 @@ func (v *autoEscapeVisitor) Enter(n parse.Node) {
 	case *parse.BlockNode:
 		v.push(v.guessTypeFromName(node.Origin))
 	case *parse.PrintNode:
-		if f, ok := node.X.(*parse.FilterExpr); ok && (f.Name == "escape" || f.Name == "raw") {
+		if v.escapesItself(node.X) {
 			// Explicitly escaped (or marked raw) by the template author: escaping
 			// the result again for the template's content type would escape it twice.
 			return
@@ -113,6 +113,36 @@ func (v *autoEscapeVisitor) Enter(n parse.Node) {
 		)
 		node.X = r
 	}
+}
+
+// escapesItself reports whether the printed expression is an explicit raw, or an
+// explicit escape for a strategy that exists, possibly in parentheses. An escape
+// filter naming an unknown strategy leaves its value untouched, so it does not
+// stand in for the escaping of the template's content type.
+func (v *autoEscapeVisitor) escapesItself(x parse.Expr) bool {
+	for g, ok := x.(*parse.GroupExpr); ok; g, ok = x.(*parse.GroupExpr) {
+		x = g.X
+	}
+	f, ok := x.(*parse.FilterExpr)
+	if !ok {
+		return false
+	}
+	switch f.Name {
+	case "raw":
+		return true
+	case "escape":
+		ct := "html"
+		if len(f.Args) > 1 {
+			s, ok := f.Args[1].(*parse.StringExpr)
+			if !ok {
+				return false
+			}
+			ct = s.Text
+		}
+		_, ok := v.ext.Escapers[ct]
+		return ok
+	}
+	return false
 }
 
 func (v *autoEscapeVisitor) Leave(n parse.Node) {
